@@ -593,6 +593,15 @@ class GMTableContract:
             raise Exception(name)
 
         def fit(conformalization_data, reporting_units, nonreporting_units, estimand, aggregate=None, alpha=None, reweight=False, top_level=True):
+            if not isinstance(conformalization_data, frames.Frame):
+                # call-site precondition of the contract: the calibration rows are handed over AS A FRAME OF THIS CALL (the
+                # `conformalization` field of the unit intervals of this level) -- e.g. model state left behind by the unit
+                # step of another level is not (C13: depends on which other levels were requested, and in which order)
+                from pyvc.values import Undecided
+
+                full = f"{self.h.udesc['prop']}.{self.h.udesc['name']}.GaussianModel_fit.pre.calibration_rows_are_those_of_the_unit_intervals_of_this_call"
+                interp.ctx.oblige(full, z3.BoolVal(False), kind="call-pre", why=f"GaussianModel.fit was handed {type(conformalization_data).__name__} (from model state?) instead of unit_prediction_intervals.conformalization", replay=lambda ev: {"target": "verif_replays:level_independence_replay", "args": ["gaussian"], "check": "result['exc'] is None and result['ok']"})
+                raise Undecided("GaussianModel.fit called with something that is not the calibration frame of this call")
             spec = FitSpec(self.h, self.t, conformalization_data.axis.doms[0], nonreporting_units.axis.doms[0], list(aggregate), alpha)
             self.calls.append(dict(spec=spec, conf=conformalization_data, rep=reporting_units, non=nonreporting_units, aggregate=list(aggregate), alpha=alpha, top_level=top_level, reweight=reweight))
             # ghost: the definitions of "some group is below the threshold" at the rows that witness the generic group
@@ -632,6 +641,12 @@ def gaussian_aggregate_run(h, keys, opaque_round=True):
     self.attrs["alpha_to_nonreporting_lower_bounds"] = {SymKey(alpha): nr_lo}
     self.attrs["alpha_to_nonreporting_upper_bounds"] = {SymKey(alpha): nr_up}
     upi = NamedTuple("PredictionIntervals", ["lower", "upper", "conformalization"], [None, None, cal])
+    # model state left behind by the unit step: the calibration frame of the LAST level whose unit intervals were computed --
+    # in a request for several levels that is some OTHER level's (an arbitrary other set of reporting units)
+    f2 = z3.Function("inCal_of_the_last_unit_step", z3.IntSort(), z3.BoolSort())
+    h.syms["inCal_of_the_last_unit_step"] = f2
+    h.forall_rows(t.root, z3.Implies(f2(t.root.u), t.R))
+    self.attrs["conformalization_data_unit"] = frames.base_frame(t.root, f2(t.root.u), {k: c.t for k, c in t.rep.cols.items()}, "geographic_unit_fips")
     h.default_replay = lambda ev: {"target": "verif_replays:gaussian_aggregate_replay", "args": [list(keys)], "check": "result['exc'] is None and result['ok']"}
     kind, res = h.call_method(self, "get_aggregate_prediction_intervals", t.rep, t.nonrep, t.third, list(keys), alpha, upi, "turnout")
     return t, inCal, cal, alpha, gmc, self, kind, res
@@ -679,7 +694,7 @@ def _agg_intervals(aggname, keys):
             h.ensures("no_outstanding_units.bounds_are_the_counted_votes", z3.Implies(rows, z3.And(real(lo0.t) == z3.ToReal(counted), real(up0.t) == z3.ToReal(counted))), replay=rp)
             return
         spec = gmc.calls[0]["spec"]
-        h.ensures("one_fit_on_the_calibration_rows_at_this_aggregate", len(gmc.calls) == 1 and gmc.calls[0]["conf"] is cal and gmc.calls[0]["non"] is t.nonrep and gmc.calls[0]["aggregate"] == list(keys) and gmc.calls[0]["alpha"] is alpha)
+        h.ensures("one_fit_on_the_calibration_rows_at_this_aggregate", len(gmc.calls) == 1 and gmc.calls[0]["conf"] is cal and gmc.calls[0]["non"] is t.nonrep and gmc.calls[0]["aggregate"] == list(keys) and gmc.calls[0]["alpha"] is alpha, why="GaussianModel.fit must get the calibration frame of THIS call's unit intervals (not model state of the last unit step), this call's outstanding units, aggregate and level", replay=lambda ev: {"target": "verif_replays:level_independence_replay", "args": ["gaussian"], "check": "result['exc'] is None and result['ok']"})
         gs = spec.gs[L]
         facts = z3.And(*t.root.facts())
         pN = t.member("N", keys)  # the generic unit is an outstanding unit of the generic group
